@@ -1,3 +1,184 @@
-(* C10 property theorems (statements only). *)
-From Coq Require Import ZArith List Bool.
-From QE Require Import Base.Num C10.Model.
+(* C10 property theorems: statements only, each closed by `exact`, with Print Assumptions. *)
+From Coq Require Import ZArith QArith List Bool.
+From Coq Require PrimFloat.
+From QE Require Import Base.Num C10.Model C10.Proofs C10.Proofs2 C10.Findings.
+Import ListNotations.
+Open Scope Z_scope.
+
+(* ---- searchsorted, for EVERY arithmetic instance (no order axioms, no sortedness):
+   it terminates within its fuel, never reads out of bounds, 0 <= k <= n,
+   k = n or v < a[k],  k = 0 or not v < a[k-1]. *)
+Theorem C10_searchsorted_spec : forall (T : Type) (N : Num T) (a : list T) (v : T),
+  exists k, searchsorted a v = Ok k /\
+    0 <= k <= zlen a /\
+    (k = zlen a \/ exists x, rd a k = Ok x /\ nltb v x = true) /\
+    (k = 0 \/ exists x, rd a (k - 1) = Ok x /\ nltb v x = false).
+Proof. intros T N. exact (@searchsorted_spec T N). Qed.
+Print Assumptions C10_searchsorted_spec.
+
+Theorem C10_searchsorted_range : forall (T : Type) (N : Num T) (a : list T) (v : T),
+  exists k, searchsorted a v = Ok k /\ 0 <= k <= zlen a.
+Proof. intros T N. exact (@searchsorted_range T N). Qed.
+Print Assumptions C10_searchsorted_range.
+
+(* ---- exact arithmetic: a stochastic matrix (rows non-negative, summing to 1), a start state and
+   uniforms in [0,1): the dense kernel returns a path (no out-of-bounds read) of length 1+|us| that starts
+   at x, all of whose entries are states, and each step goes to a state y of positive probability with
+   S_{y-1} <= u < S_y for the partial sums S of the current row. *)
+Theorem C10_path_valid_exact : forall (P : list (list Q)) (x : Z) (us : list Q),
+  stochastic_matrix P -> 0 <= x < zlen P -> Forall unit_interval us ->
+  exists p, path_dense (cdfs_dense P) x us = Ok p /\
+    length p = S (length us) /\ nth_error p 0 = Some x /\
+    Forall (fun s => 0 <= s < zlen P) p /\
+    forall t u, nth_error us t = Some u ->
+      exists xt y row py,
+        nth_error p t = Some xt /\ nth_error p (S t) = Some y /\ 0 <= xt /\ 0 <= y /\
+        nth_error P (Z.to_nat xt) = Some row /\ nth_error row (Z.to_nat y) = Some py /\ (0 < py)%Q /\
+        (qsum (firstn (Z.to_nat y) row) <= u < qsum (firstn (S (Z.to_nat y)) row))%Q.
+Proof. exact path_valid_exact. Qed.
+Print Assumptions C10_path_valid_exact.
+
+(* ---- every init / num_reps form of simulate_indices (dense, exact arithmetic): the call succeeds, returns
+   one row per initial state, each of length ts_length, each a valid path from init mod n fed with its own
+   chunk of the uniform stream *)
+Theorem C10_simulate_indices_exact : forall (P : list (list Q)) ts init nr drawn stream d inits,
+  stochastic_matrix P -> 0 < zlen P -> 1 <= ts -> Forall unit_interval stream ->
+  (length inits * Z.to_nat (ts - 1) <= length stream)%nat ->
+  init_states (zlen P) init nr drawn = Ok (d, inits) ->
+  exists X, simulate_indices (Dense P) ts init nr drawn stream = Ok (d, X) /\
+    length X = length inits /\
+    forall i x0 row, nth_error inits i = Some x0 -> nth_error X i = Some row ->
+      length row = Z.to_nat ts /\
+      exists us, nth_error (chop (length inits) (Z.to_nat (ts - 1)) stream) i = Some us /\
+                 exact_path P (x0 mod zlen P) us row.
+Proof. exact simulate_indices_exact. Qed.
+Print Assumptions C10_simulate_indices_exact.
+
+(* shape of the initial states for every init / num_reps combination (and which ones are rejected) *)
+Theorem C10_init_states_shape : forall n init nr drawn d inits,
+  init_states n init nr drawn = Ok (d, inits) ->
+  d = match init, nr with IArr _, _ => true | _, Some _ => true | _, None => false end /\
+  (forall r, nr = Some r -> 0 <= r) /\
+  match init with
+  | IInt i => - n <= i < n /\ inits = repeat i (reps nr)
+  | IArr l => Forall (fun i => - n <= i < n) l /\ inits = tile l (reps nr)
+  | INone => inits = firstn (reps nr) drawn
+  end.
+Proof. exact init_states_shape. Qed.
+Print Assumptions C10_init_states_shape.
+
+(* ---- the repaired kernel for ANY arithmetic (in particular binary64) that satisfies the facts
+   F1 (0 <= u < 1, c an admissible total => u*c < c and not u*c < 0) and F2 (a zero summand changes no
+   comparison): no out-of-bounds read, every entry a state, every step of positive probability and
+   bracketed by the cumulative sums actually used.  F1, F2 are hypotheses here (not proved for floats). *)
+Theorem C10_path_valid_float : forall (T : Type) (N : Num T) (scal_ok : T -> Prop),
+  (forall u c, scal_ok c -> unitv u -> nltb (nmul u c) c = true) ->
+  (forall u c, scal_ok c -> unitv u -> nltb (nmul u c) nzero = false) ->
+  (forall x p v, nleb nzero p = true -> nltb nzero p = false -> nltb v (nadd x p) = nltb v x) ->
+  (forall p v, nleb nzero p = true -> nltb nzero p = false -> nltb v p = true -> nltb v nzero = true) ->
+  forall (P : list (list T)) us x,
+    matrix_ok scal_ok P -> 0 <= x < zlen P -> Forall unitv us ->
+    exists p, path_dense (cdfs_dense P) x us = Ok p /\ valid_path P x us p.
+Proof. intros T N. exact (@path_dense_valid T N). Qed.
+Print Assumptions C10_path_valid_float.
+
+Theorem C10_simulate_indices_float : forall (T : Type) (N : Num T) (scal_ok : T -> Prop),
+  (forall u c, scal_ok c -> unitv u -> nltb (nmul u c) c = true) ->
+  (forall u c, scal_ok c -> unitv u -> nltb (nmul u c) nzero = false) ->
+  (forall x p v, nleb nzero p = true -> nltb nzero p = false -> nltb v (nadd x p) = nltb v x) ->
+  (forall p v, nleb nzero p = true -> nltb nzero p = false -> nltb v p = true -> nltb v nzero = true) ->
+  forall (P : list (list T)) ts init nr drawn stream d inits,
+    matrix_ok scal_ok P -> 0 < zlen P -> 1 <= ts -> Forall unitv stream ->
+    init_states (zlen P) init nr drawn = Ok (d, inits) ->
+    exists X, simulate_indices (Dense P) ts init nr drawn stream = Ok (d, X) /\
+      Forall2 (fun iu p => valid_path P (fst iu) (snd iu) p)
+              (combine (map (fun i => i mod zlen P) inits)
+                       (chop (length inits) (Z.to_nat (ts - 1)) stream)) X.
+Proof. intros T N. exact (@simulate_indices_dense_valid T N). Qed.
+Print Assumptions C10_simulate_indices_float.
+
+(* what valid_path gives at every step (indexed form), and that with monotone cumulative sums (fact F3)
+   the bracket picks the least index whose cumulative sum exceeds the scaled uniform *)
+Theorem C10_valid_path_step : forall (T : Type) (N : Num T) (P : list (list T)) x us p,
+  valid_path P x us p ->
+  length p = S (length us) /\ nth_error p 0 = Some x /\
+  forall t u, nth_error us t = Some u ->
+    exists xt y row, nth_error p t = Some xt /\ nth_error p (S t) = Some y /\ 0 <= xt /\
+      nth_error P (Z.to_nat xt) = Some row /\
+      (* step_post unfolded *)
+      0 <= y < zlen row /\
+      (exists py, nth_error row (Z.to_nat y) = Some py /\ nltb nzero py = true) /\
+      exists c, rdw (cumsum row) (-1) = Ok c /\
+        (exists cy, rd (cumsum row) y = Ok cy /\ nltb (nmul u c) cy = true) /\
+        (y = 0 \/ exists cy', rd (cumsum row) (y - 1) = Ok cy' /\ nltb (nmul u c) cy' = false).
+Proof.
+  intros T N P x us p Hv. split; [exact (valid_path_length _ _ _ _ Hv)|].
+  split; [exact (valid_path_head _ _ _ _ Hv)|]. exact (valid_path_step P x us p Hv).
+Qed.
+Print Assumptions C10_valid_path_step.
+
+Theorem C10_bracket_least : forall (T : Type) (N : Num T) (fin : T -> Prop),
+  (forall v y z, fin z -> nltb v y = true -> nltb z y = false -> nltb v z = true) ->
+  forall (cdf : list T) v k x,
+    monotone cdf -> (forall z, In z cdf -> fin z) ->
+    rd cdf k = Ok x -> nltb v x = true ->
+    (k = 0 \/ exists x', rd cdf (k - 1) = Ok x' /\ nltb v x' = false) ->
+    (forall j cj, (j < Z.to_nat k)%nat -> nth_error cdf j = Some cj -> nltb v cj = false) /\
+    (forall j cj, (Z.to_nat k <= j)%nat -> nth_error cdf j = Some cj -> nltb v cj = true).
+Proof. intros T N. exact (@bracket_least T N). Qed.
+Print Assumptions C10_bracket_least.
+
+(* ---- the pinned code refutes the property (findings D2 and D10, both repaired in /repo) *)
+Theorem C10_path_in_range_float_refuted :
+  exists (P : list (list PrimFloat.float)) (u : PrimFloat.float),
+    mc_accepts_dense allclose_tol P = true /\
+    PrimFloat.leb f_zero u = true /\ PrimFloat.ltb u f_one = true /\
+    path_dense_old (cdfs_dense P) 0 [u] = Ok [0; 10] /\
+    path_dense_old (cdfs_dense P) 0 [u; u] = OOB /\
+    path_dense (cdfs_dense P) 0 [u; u] = Ok [0; 9; 9].
+Proof. exact path_in_range_float_refuted. Qed.
+Print Assumptions C10_path_in_range_float_refuted.
+
+Theorem C10_sparse_negative_init_refuted :
+  in_state_range 3 (-1) = true /\
+  simulate_indices_old (Sparse 3 P3_data P3_indices P3_indptr) 4 (IInt (-1)) None [] [1#2; 1#2; 1#2]%Q = OOB /\
+  in_state_range 3 (-3) = true /\
+  simulate_indices_old C3 2 (IInt (-3)) None [] [1#2]%Q = Ok (false, [[-3; 2]]) /\
+  simulate_indices (Sparse 3 P3_data P3_indices P3_indptr) 4 (IInt (-1)) None [] [1#2; 1#2; 1#2]%Q = Ok (false, [[2; 2; 2; 2]]) /\
+  simulate_indices C3 2 (IInt (-3)) None [] [1#2]%Q = Ok (false, [[0; 1]]).
+Proof. exact sparse_negative_init_refuted. Qed.
+Print Assumptions C10_sparse_negative_init_refuted.
+
+(* ---- the hypotheses are satisfiable by concrete non-trivial objects *)
+(* exact: a 3-state chain with a zero entry and a trailing zero-probability state *)
+Definition P_ex : list (list Q) := [[1#2; 1#2; 0]; [1#4; 3#4; 0]; [1#3; 1#3; 1#3]]%Q.
+Example ex_stochastic : stochastic_matrix P_ex /\ 0 <= 2 < zlen P_ex /\ Forall unit_interval [0; 1#2; 999#1000]%Q.
+Proof.
+  split; [|split].
+  - intros row Hrow. simpl in Hrow.
+    destruct Hrow as [<-|[<-|[<-|[]]]]; (split; [reflexivity|split; [|vm_compute; reflexivity]]);
+      intros p Hp; simpl in Hp; repeat (destruct Hp as [<-|Hp]; [vm_compute; discriminate|]); destruct Hp.
+  - vm_compute. split; [discriminate|reflexivity].
+  - unfold unit_interval. repeat constructor; first [vm_compute; discriminate | vm_compute; reflexivity].
+Qed.
+Example ex_exact_run : path_dense (cdfs_dense P_ex) 2 [0; 1#2; 999#1000]%Q = Ok [2; 0; 1; 1].
+Proof. vm_compute. reflexivity. Qed.
+(* generic facts: instantiated (hence satisfiable) at Q with scal_ok c := 0 < c *)
+Example ex_facts_Q :
+  (forall u c : Q, posQ c -> unitv u -> nltb (nmul u c) c = true) /\
+  (forall u c : Q, posQ c -> unitv u -> nltb (nmul u c) nzero = false) /\
+  (forall x p v : Q, nleb nzero p = true -> nltb nzero p = false -> nltb v (nadd x p) = nltb v x) /\
+  (forall p v : Q, nleb nzero p = true -> nltb nzero p = false -> nltb v p = true -> nltb v nzero = true) /\
+  (forall v y z : Q, True -> nltb v y = true -> nltb z y = false -> nltb v z = true) /\
+  matrix_ok posQ P_ex /\ (forall row, In row P_ex -> monotone (cumsum row)).
+Proof.
+  split; [exact F1_Q|]. split; [exact F1z_Q|]. split; [exact F2_Q|]. split; [exact F2z_Q|]. split; [exact F3_Q|].
+  destruct ex_stochastic as [Hs _]. split.
+  - apply matrix_ok_Q; [reflexivity|exact Hs].
+  - intros row Hrow. apply cumsum_Q_monotone. destruct (Hs row Hrow) as [_ [Hnn _]]. exact Hnn.
+Qed.
+(* init_states accepts a negative index in range, tiles an array, rejects an out-of-range index *)
+Example ex_init_states :
+  init_states 3 (IArr [0; -1]) (Some 2) [] = Ok (true, [0; -1; 0; -1]) /\
+  init_states 3 (IInt 3) None [] = ValueErr /\ init_states 3 INone (Some 2) [1; 2; 0] = Ok (true, [1; 2]).
+Proof. vm_compute. repeat split; reflexivity. Qed.
